@@ -14,6 +14,7 @@ package main
 import (
 	"fmt"
 	"regexp"
+	"strings"
 	"time"
 
 	"go.sia.tech/core/consensus"
@@ -66,6 +67,11 @@ func (s *scen) run(p probe) {
 		blk, bs, err := p.mk()
 		var got bool
 		var verr error
+		if err != nil && strings.Contains(err.Error(), "not funded") {
+			// the wallet has no spendable output for this scenario right now: nothing observed, nothing judged
+			s.b.Count("scenarios_skipped_for_lack_of_funds", 1)
+			return
+		}
 		if err != nil {
 			// the transaction cannot be formed for this tip (counts as "not accepted"; must coincide with want == false)
 			got = false
